@@ -42,7 +42,7 @@ def confirm(prop, n):
 
     # 4. demo passes without the patch
     put_demo()
-    rc, txt = sh("go test -vet=off -count=1 -run 'Demo|DEMO|demo' ./%s/" % pkgdir, wt)
+    rc, txt = sh("go test -vet=off -count=1 -run 'Demo|DEMO|demo|ZZ' ./%s/" % pkgdir, wt)
     note("demo without patch", rc)
     res["demo_passes_without_patch"] = rc == 0
     del_demo()
@@ -77,7 +77,7 @@ def confirm(prop, n):
         res["existing_suite_failures_seen"] = fails
         # 3. demo fails with the patch
         put_demo()
-        rc, txt = sh("go test -vet=off -count=1 -run 'Demo|DEMO|demo' ./%s/" % pkgdir, wt)
+        rc, txt = sh("go test -vet=off -count=1 -run 'Demo|DEMO|demo|ZZ' ./%s/" % pkgdir, wt)
         note("demo with patch", rc, txt[-300:].replace("\n", " | ") if rc else "")
         res["demo_fails_with_patch"] = rc != 0 and "FAIL" in txt and "build failed" not in txt
         del_demo()
